@@ -252,6 +252,14 @@ pub enum ProgramError<E> {
     Vm(#[from] vm::error::ExecError<E>),
 }
 
+#[cfg(essential_base_verif)]
+impl<E> ProgramErrors<E> {
+    /// Verification hook: the indices of the nodes whose programs failed, in report order.
+    pub fn verif_node_indices(&self) -> Vec<usize> {
+        self.0.iter().map(|(ix, _)| *ix).collect()
+    }
+}
+
 /// The index of each constraint that was not satisfied.
 #[derive(Debug, Error)]
 pub struct ConstraintsUnsatisfied(pub Vec<usize>);
